@@ -25,7 +25,10 @@ def rand_case(rng):
     d = bspec.rand_spec_desc(rng, seq, KINDS)
     p = rng.choice([0.1, 0.3, 0.6])
     s2 = "".join(ch if rng.random() > p else rng.choice("ATGC") for ch in seq)
-    return dict(sequence=seq, spec=d, evaluated=s2)
+    case = dict(sequence=seq, spec=d, evaluated=s2)
+    if d.get("location") and d["kind"] in ("pattern", "insert", "cds", "stop", "gcwin", "sequence") and rng.random() < 0.25:
+        case["sibling"] = rng.choice(["keep", "change", "no_both", "insert_both"])
+    return case
 
 
 def correspondence(ctx):
@@ -60,12 +63,49 @@ def correspondence(ctx):
                                for x in c.disagreements])
 
 
+def _build_with(d, loc):
+    """the specification of description d, given the Location *object* loc"""
+    import dnachisel as dc
+    k = d["kind"]
+    if k == "pattern":
+        return dc.AvoidPattern(d["pattern"], location=loc)
+    if k == "insert":
+        return dc.EnforcePatternOccurence(d["pattern"], occurences=d["occurences"], location=loc)
+    if k == "cds":
+        return dc.EnforceTranslation(location=loc, genetic_table=d["table"], start_codon=d["start_codon"], translation=d["translation"])
+    if k == "stop":
+        return dc.AvoidStopCodons(genetic_table=d["table"], location=loc)
+    if k == "gcwin":
+        return dc.EnforceGCContent(mini=d["mini"], maxi=d["maxi"], window=d["window"], location=loc)
+    if k == "sequence":
+        return dc.EnforceSequence(sequence=d["sequence"], location=loc)
+    raise ValueError(k)
+
+
 def oracle_case(case, out):
     seq, d, s2 = case["sequence"], case["spec"], case["evaluated"]
     if d["kind"] == "hairpin":
         return 0
     try:
-        spec, stub = bspec.init_spec(d, seq)
+        if case.get("sibling") is not None and d.get("location"):
+            # the user builds a second specification from the *same* Location object (natural when annotating one
+            # region with several specifications): it must not change what the first one means
+            import dnachisel as dc
+            from gen import problems as _pb
+            shared = dc.Location(*d["location"])
+            stub = hard.Stub(seq)
+            spec = _build_with(d, shared)
+            sib = case["sibling"]
+            other = {"keep": lambda: dc.AvoidChanges(location=shared), "change": lambda: dc.EnforceChanges(location=shared),
+                     "no_both": lambda: dc.AvoidPattern("ATGC", location=shared, strand="both"),
+                     "insert_both": lambda: dc.EnforcePatternOccurence("ATGC", location=shared, strand="both")}[sib]()
+            try:
+                other.initialized_on_problem(stub, role="constraint")
+            except Exception:
+                pass
+            spec = spec.initialized_on_problem(stub, role=bspec.ROLE.get(d["kind"], "constraint"))
+        else:
+            spec, stub = bspec.init_spec(d, seq)
     except Exception:
         return 0
     want = oracle_doc.doc(d, seq, s2)
